@@ -945,9 +945,26 @@ func (r *ResolverGenerator) toAliasFunction() *codegen.Function {
 						jen.Commentf("Only handle string aliases."),
 						jen.Switch(jen.Id("conc").Op(":=").Id("val").Assert(jen.Type())).Block(
 							jen.Case(jen.String()).Block(
-								jen.Id("m").Index(
-									jen.Id("k"),
-								).Op("=").Id("conc"),
+								jen.Commentf("JSON-LD term definition: the key is the alias, the value the vocabulary."),
+								jen.If(
+									jen.List(
+										jen.Id("ok"),
+										jen.Id("http"),
+										jen.Id("https"),
+									).Op(":=").Id("toHttpHttpsFn").Call(jen.Id("conc")),
+									jen.Id("ok"),
+								).Block(
+									jen.Id("m").Index(
+										jen.Id("http"),
+									).Op("=").Id("k"),
+									jen.Id("m").Index(
+										jen.Id("https"),
+									).Op("=").Id("k"),
+								).Else().Block(
+									jen.Id("m").Index(
+										jen.Id("conc"),
+									).Op("=").Id("k"),
+								),
 							),
 						),
 					),
